@@ -49,10 +49,25 @@ def all_nested(n):
     return list(trees(list(range(n))))
 
 
+class LNode(list):
+    """an inner node that carries a label in the Newick text (a support value); labels may repeat"""
+    label = ''
+
+
+def with_support(rng, t, top=True):
+    """the same tree with labelled inner nodes, as trees with support values have them: ((a,b)95,(c,d)95,e)"""
+    if not isinstance(t, list):
+        return t
+    n = LNode(with_support(rng, c, False) for c in t)
+    if not top and rng.random() < 0.8:
+        n.label = rng.choice(['95', '87', '0.99', '95', '100'])
+    return n
+
+
 def newick(t):
     if not isinstance(t, list):
         return 'L%d' % t
-    return '(' + ','.join(newick(c) for c in t) + ')'
+    return '(' + ','.join(newick(c) for c in t) + ')' + getattr(t, 'label', '')
 
 
 def structure(tree):
@@ -147,18 +162,19 @@ def brute_opt(tree, taxa, paps, w, md):
         for c in n.Children:
             collect(c)
     collect(tree)
+    # labelings are keyed by the node OBJECTS (not by their names): the oracle must not depend on inner nodes having distinct names
     free = [n for n in nodes if not n.isTip() or (pat[n.Name] == -1 and md == -1)]
-    fixed = {n.Name: (0 if pat[n.Name] == -1 else pat[n.Name]) for n in nodes if n.isTip() and not (pat[n.Name] == -1 and md == -1)}
+    fixed = {id(n): (0 if pat[n.Name] == -1 else pat[n.Name]) for n in nodes if n.isTip() and not (pat[n.Name] == -1 and md == -1)}
     best = None
     for bits in itertools.product((0, 1), repeat=len(free)):
         lab = dict(fixed)
         for n, b in zip(free, bits):
-            lab[n.Name] = b
-        cost = w[0] if lab[tree.Name] == 1 else 0
+            lab[id(n)] = b
+        cost = w[0] if lab[id(tree)] == 1 else 0
         for n in nodes:
             for c in n.Children:
-                if lab[n.Name] != lab[c.Name]:
-                    cost += w[0] if lab[c.Name] == 1 else w[1]
+                if lab[id(n)] != lab[id(c)]:
+                    cost += w[0] if lab[id(c)] == 1 else w[1]
         if best is None or cost < best:
             best = cost
     return best
